@@ -65,7 +65,8 @@ namespace micm
     std::size_t max_iter = parameters.max_number_of_steps_;
     const auto time_step_reductions = parameters.time_step_reductions_;
 
-    double H = parameters.h_start_ == 0.0 ? time_step : parameters.h_start_;
+    // the first step never goes past the requested time step
+    double H = parameters.h_start_ == 0.0 ? time_step : std::min(parameters.h_start_, time_step);
     double t = 0.0;
     std::size_t n_successful_integrations = 0;
     std::size_t n_convergence_failures = 0;
